@@ -17,6 +17,8 @@ Delivered-To line + original; every line added to a delivered copy is a single l
 Slack (accepted both ways, counted): -n with a sticky home (only "defers delivery" is documented); DEFAULT for an exact match on
 a name ending in "default"; case/'.' form of DEFAULT; HOSTn/EXTn when HOST/EXT has fewer dots/dashes than the variable needs;
 exit status of a failing mbox/maildir instruction (any non-zero); files left in maildir tmp/.
+A violation is reported only if it reproduces on two further executions of the same scenario (otherwise: inconclusive,
+class `unreproducible`, message kept in the evidence); a run whose trace is empty (interposer not loaded) is inconclusive.
 Left out relative to the design: `|cat > f; exit N` is folded into the marker program (every program copies stdin to M<tag>);
 recipient/sender strings contain no bytes >= 0x80 in `ext` (lower-casing of 8-bit letters is not documented)."""
 import os, re, json, stat, errno
@@ -607,7 +609,11 @@ def run_case_once(box, sc, stats, patrn):
     if rc is None:
         stats.inconclusive += 1
         return None
-    v = judge_dry(box, w, expd, rc, out, box.h.read_trace(), before, stats)
+    evd = box.h.read_trace()
+    if lc.main_pid(evd) is None:        # the interposer was not loaded (e.g. vshim.so being rebuilt): nothing can be judged
+        stats.inconclusive += 1
+        return None
+    v = judge_dry(box, w, expd, rc, out, evd, before, stats)
     if v:
         stats.case(scenario=sc, nontrivial=True, classes=["violation_dry"])
         return v + " | " + json.dumps(vlib.jsonable(sc))[:1200]
@@ -618,7 +624,11 @@ def run_case_once(box, sc, stats, patrn):
     if rc is None:
         stats.inconclusive += 1
         return None
-    v = judge_real(box, w, exp, rc, box.h.read_trace(), before, t0, t1, stats)
+    evr = box.h.read_trace()
+    if lc.main_pid(evr) is None:
+        stats.inconclusive += 1
+        return None
+    v = judge_real(box, w, exp, rc, evr, before, t0, t1, stats)
     info = exp["info"]
     kinds = info.get("kinds", [])
     nontrivial = info.get("ncand", 0) >= 2 or len(kinds) >= 2 or bool(info.get("fwd_lost"))
@@ -933,7 +943,7 @@ def run(ctx):
                 reg.append(x.get("scenario", x))
     b = reg + b
     nw = vlib.NCPU
-    per = ctx.n(1200, 16000)
+    per = ctx.n(1000, 16000)
     jobs = [(tree, i, vlib.subseed(ctx.seed, "c13", i), per, b[i::nw]) for i in range(nw)]
     ctx.stats.merge(vlib.run_workers(worker, jobs))
     ctx.notes["conf_patrn"] = oct(get_patrn(tree))
